@@ -280,7 +280,12 @@ def r_rec(ctx, P):
     ctx.check(P + ':rec:inventory', 'R-rec', 'every recursive component of the resolved call graph is in the reviewed inventory (%d components)' % len(comps),
               not unknown, missing=unknown[:3] or None, count=len(comps), table={k: v[1] for k, v in REC_REVIEWED.items()})
     ctx.floor(P + ':rec:floor', 'recursive components found', len(comps), 3)
-    # depth guard on the data-driven recursion
+    embedded_depth_guard(ctx, P)
+
+
+def embedded_depth_guard(ctx, P):
+    """Depth guard on the data-driven recursion through Embedded Signature subpackets (shared with C19: work and memory of the
+    recursion are bounded by the input only if its depth is)."""
     b = ctx.body('packet::signature::de::embedded_sig')
     if b is not None:
         rec = b.calls(r'Signature::try_from_reader(_nested)?$')
